@@ -290,7 +290,7 @@ func c17(c *core.Ctx) {
 	c.Info("rule", "case = seeded history of 8/16/32/64 operations over {protect as I, protect as R, unprotect genuine from a fresh peer, unprotect forged (bit flip / truncation / garbage / short SK body / reflection), derive Child SA} on ONE long-lived IKESAKey; "+
 		"every step is repeated on a freshly built key object under the same deterministic random stream and must give byte-identical results, plus solo contracts and a spy-trace specification; distinct = operation bigrams x suite and trigrams observed; all 25 bigrams required")
 	c.Info("assumptions", "deterministic crypto/rand.Reader replacement makes EncodeEncrypt a pure function of (message, keys, stream)")
-	c.Family("histories", c.N(9*300, 9*20000), c17History)
+	c.Family("histories", c.N(9*300, 9*100000), c17History)
 	var req []string
 	for a := 0; a < nOps; a++ {
 		for b := 0; b < nOps; b++ {
